@@ -79,6 +79,10 @@ theorem wait_wakes_every_waiter (ops : List Ebu.Inflight.Op) :
     Ebu.Inflight.NoLostWakeup (Ebu.Inflight.run .broadcast ops) :=
   ⟨by decide, by decide, Ebu.Inflight.broadcast_no_lost_wakeup ops⟩
 
+/-- OBLIGATION: `MemoryStore.Append` takes the next offset and inserts the record inside one write-locked critical
+section: concurrent appenders (two buses on one store, or direct use) cannot put a later offset into the log first -/
+theorem facts_memstore_append_atomic : MemAppendAtomic accessFacts = true := by decide
+
 /-- OBLIGATION: locks are nested only along one fixed order: no lock-order cycle -/
 theorem facts_nesting_ordered : NestingOk nestingFacts = true := by decide
 
